@@ -2,6 +2,7 @@ package dns
 
 import (
 	"bytes"
+	"io"
 
 	"github.com/refraction-networking/conjure/internal/verifnd"
 )
@@ -270,4 +271,74 @@ func VerifC15MessageRoundTrip() {
 		}
 	}
 	verifnd.Reach("C15.msg.done")
+}
+
+// VerifC15TwoNames: two names of ARBITRARY label bytes (incl. '.', '\\', NUL)
+// written into one message by the builder - the second may be emitted as a
+// compression pointer into the first - are both read back identically.  The
+// label shapes are chosen so that the two names can have equal byte content
+// with different label boundaries ((3,1) against (1,1,1), (1,3), (3), (1,1)).
+// Bound: every label byte is one of '.', '\\', 'a', 'b' (the separator and the
+// escape character of Name.String, and two plain letters): Name.String decides
+// a 7-way character class per byte, which over arbitrary bytes is 7^7 paths;
+// arbitrary bytes of a single name are VerifC15NameRoundTrip's subject.
+// verif:shards=4
+func VerifC15TwoNames() {
+	shape := verifnd.Choose("second-shape", 4)
+	n1 := Name{verifnd.Bytes("a0", 3), verifnd.Bytes("a1", 1)}
+	var n2 Name
+	switch shape {
+	case 0:
+		n2 = Name{verifnd.Bytes("b0", 1), verifnd.Bytes("b1", 1), verifnd.Bytes("b2", 1)}
+	case 1:
+		n2 = Name{verifnd.Bytes("b0", 1), verifnd.Bytes("b1", 3)}
+	case 2:
+		n2 = Name{verifnd.Bytes("b0", 3)}
+	case 3:
+		n2 = Name{verifnd.Bytes("b0", 1), verifnd.Bytes("b1", 1)}
+	}
+	for _, nm := range []Name{n1, n2} {
+		for _, l := range nm {
+			for _, c := range l {
+				verifnd.Cut("dns.twonames-alphabet", verifnd.Or(verifnd.Or(c == '.', c == '\\'), verifnd.Or(c == 'a', c == 'b')))
+			}
+		}
+	}
+	b := newMessageBuilder()
+	if b.WriteName(n1) != nil || b.WriteName(n2) != nil {
+		return
+	}
+	r := bytes.NewReader(b.Bytes())
+	g1, err1 := readName(r)
+	g2, err2 := readName(r)
+	verifnd.Assert(err1 == nil && verifNamesEqual(g1, n1), "C15.twonames.first")
+	verifnd.Assert(err2 == nil && verifNamesEqual(g2, n2), "C15.twonames.second")
+	verifnd.Reach("C15.twonames.done")
+}
+
+// VerifC15FarNames: the same name written twice behind K bytes of earlier
+// message content, K at and around the limit of what a compression pointer can
+// address (14 bits) and around 16 bits: both occurrences are read back
+// identically (the second is a pointer only where a pointer can express the offset).
+// verif:shards=11
+func VerifC15FarNames() {
+	ks := []int{0, 12, 0x3ffb, 0x3ffc, 0x3ffd, 0x3ffe, 0x3fff, 0x4000, 0x4001, 0xfffe, 0x10003}
+	k := ks[verifnd.Choose("offset", len(ks))]
+	n := Name{plainLabel("l0", 2), plainLabel("l1", 1)}
+	b := newMessageBuilder()
+	pad := make([]byte, k)
+	for i := range pad {
+		pad[i] = 0xc0 // whatever a misdirected pointer lands on is itself a pointer (to offset 0xc0c0 & 0x3fff)
+	}
+	_, _ = b.w.Write(pad)
+	if b.WriteName(n) != nil || b.WriteName(n) != nil {
+		return
+	}
+	r := bytes.NewReader(b.Bytes())
+	_, _ = r.Seek(int64(k), io.SeekStart)
+	g1, err1 := readName(r)
+	g2, err2 := readName(r)
+	verifnd.Assert(err1 == nil && verifNamesEqual(g1, n), "C15.farnames.first")
+	verifnd.Assert(err2 == nil && verifNamesEqual(g2, n), "C15.farnames.second")
+	verifnd.Reach("C15.farnames.done")
 }
